@@ -730,3 +730,51 @@ where
         r
     }
 }
+
+
+/// A model whose (finite) values depend on the SIGN of a zero parameter: column 0 is
+/// sign(a)·(i+1) with sign(+0.0) = +1 and sign(-0.0) = -1, column 1 is constant.  +0.0 and -0.0
+/// are different parameter vectors for it although they compare equal.
+#[derive(Clone, Debug)]
+pub struct SignModel<T: Sc> {
+    pub n: usize,
+    pub params: DVector<T>,
+}
+impl<T: Sc> SignModel<T> {
+    pub fn new(n: usize, a: T) -> Self {
+        Self { n, params: DVector::from_element(1, a) }
+    }
+}
+impl<T: Sc> SeparableNonlinearModel for SignModel<T> {
+    type ScalarType = T;
+    type Error = MErr;
+    fn parameter_count(&self) -> usize {
+        1
+    }
+    fn base_function_count(&self) -> usize {
+        2
+    }
+    fn output_len(&self) -> usize {
+        self.n
+    }
+    fn set_params(&mut self, parameters: OVector<T, Dyn>) -> Result<(), MErr> {
+        if parameters.len() != 1 {
+            return Err(MErr::Inner("parameter count".into()));
+        }
+        self.params = parameters;
+        Ok(())
+    }
+    fn params(&self) -> OVector<T, Dyn> {
+        self.params.clone()
+    }
+    fn eval(&self) -> Result<OMatrix<T, Dyn, Dyn>, MErr> {
+        let s = if self.params[0].to64().is_sign_negative() { -1.0 } else { 1.0 };
+        Ok(DMatrix::from_fn(self.n, 2, |i, j| if j == 0 { T::of64(s * (i as f64 + 1.0)) } else { T::one() }))
+    }
+    fn eval_partial_deriv(&self, k: usize) -> Result<OMatrix<T, Dyn, Dyn>, MErr> {
+        if k != 0 {
+            return Err(MErr::Inner("derivative index".into()));
+        }
+        Ok(DMatrix::from_element(self.n, 2, T::zero()))
+    }
+}
